@@ -32,6 +32,7 @@ comments, the champion arrays of __init__ ...) are ignored outside the walked lo
 from __future__ import annotations
 
 import ast
+import copy
 from pathlib import Path
 
 from .common import HEADER, body_no_doc, fail, find_func, parse
@@ -544,6 +545,29 @@ def is_pow10(v, sub_dump):
     return False
 
 
+def pow10_exponent(v):
+    """np.power(10, <e>) | 10 ** <e>  ->  <e>"""
+    ten = lambda c: isinstance(c, ast.Constant) and c.value in (10, 10.0) and not isinstance(c.value, bool)  # noqa: E731
+    if isinstance(v, ast.Call) and u(v.func) in ("np.power", "numpy.power", "np.float_power") and len(v.args) == 2 \
+            and not v.keywords and ten(v.args[0]):
+        return v.args[1]
+    if isinstance(v, ast.BinOp) and isinstance(v.op, ast.Pow) and ten(v.left):
+        return v.right
+    return None
+
+
+def arr_slice(e, arr, env, var):
+    """<arr>[..., lo:hi] -> (linear form of lo, of hi) under the current integer environment, else None"""
+    if not (isinstance(e, ast.Subscript) and is_name(e.value, arr)):
+        return None
+    sl = e.slice
+    if not (isinstance(sl, ast.Tuple) and len(sl.elts) == 2 and isinstance(sl.elts[0], ast.Constant)
+            and sl.elts[0].value is Ellipsis and isinstance(sl.elts[1], ast.Slice)
+            and sl.elts[1].step is None and sl.elts[1].lower is not None and sl.elts[1].upper is not None):
+        return None
+    return (lin_of(sl.elts[1].lower, env, var), lin_of(sl.elts[1].upper, env, var))
+
+
 def convert(tree):
     fn = find_func(tree, "convert_to_parameters", CLS)
     params = [a.arg for a in fn.args.args]
@@ -591,7 +615,7 @@ def convert(tree):
             env = {k: v for k, v in env0.items()}
             env[a_name] = (0, 1, 0)
             site = None
-            ok = True
+            held = {}
             for s in line:
                 if skip_stmt(s):
                     continue
@@ -603,18 +627,25 @@ def convert(tree):
                             continue
                         ap = assign_parts(t)
                         if ap and isinstance(ap[0], ast.Subscript) and is_name(ap[0].value, arr):
-                            sl = ap[0].slice
-                            if not (isinstance(sl, ast.Tuple) and len(sl.elts) == 2 and isinstance(sl.elts[0], ast.Constant)
-                                    and sl.elts[0].value is Ellipsis and isinstance(sl.elts[1], ast.Slice)
-                                    and sl.elts[1].step is None and sl.elts[1].lower is not None
-                                    and sl.elts[1].upper is not None):
+                            dst = arr_slice(ap[0], arr, env, var)
+                            if dst is None:
                                 fail(t, "the exponentiated slice must be <array>[..., start:stop]")
-                            rhs_sub = ast.Subscript(value=ap[0].value, slice=sl, ctx=ast.Load())
-                            if not is_pow10(ap[1], ast.dump(rhs_sub).replace("Store()", "Load()")):
+                            ex = pow10_exponent(ap[1])
+                            if ex is None:
+                                fail(t, "the slice must be assigned 10 ** (the same slice)")
+                            src_sl = held.get(ex.id) if is_name(ex) else arr_slice(ex, arr, env, var)
+                            if src_sl != dst:
                                 fail(t, "the slice must be assigned 10 ** (the same slice)")
                             if site is not None:
                                 fail(t, "two exponentiations in one iteration")
-                            site = (lin_of(sl.elts[1].lower, env, var), lin_of(sl.elts[1].upper, env, var))
+                            site = dst
+                            continue
+                        # chunk = <array>[..., start:stop]   (a named intermediate: the slice it names is fixed here)
+                        if ap and is_name(ap[0]) and isinstance(ap[1], ast.Subscript) and is_name(ap[1].value, arr) \
+                                and arr_slice(ap[1], arr, env, var) is not None and ap[0].id not in env:
+                            if site is not None or ap[0].id in held:
+                                fail(t, "the working array is read again after it was exponentiated")
+                            held[ap[0].id] = arr_slice(ap[1], arr, env, var)
                             continue
                         if int_stmt(t, env, var):
                             continue
@@ -669,6 +700,26 @@ def is_deepcopy_of(e, name):
             and not e.keywords and is_name(e.args[0], name))
 
 
+def param_selection(v, env, var, one):
+    """parameter[i] | parameter[s:t] (| a copy of it) -> (Coq selection, does it depend on the running offset) or None"""
+    # a copy of the element / slice carries the same values (C06 repair: parameter[start:stop].copy())
+    if isinstance(v, ast.Call) and not v.keywords:
+        if isinstance(v.func, ast.Attribute) and v.func.attr == "copy" and not v.args:
+            v = v.func.value
+        elif isinstance(v.func, ast.Attribute) and is_name(v.func.value, "np") \
+                and v.func.attr in ("copy", "array") and len(v.args) == 1:
+            v = v.args[0]
+    if not (isinstance(v, ast.Subscript) and is_name(v.value, "parameter")):
+        return None
+    if isinstance(v.slice, ast.Slice):
+        if v.slice.step is not None or v.slice.lower is None or v.slice.upper is None:
+            fail(v, "the slice must be parameter[start:stop]")
+        lo, hi = lin_of(v.slice.lower, env, var), lin_of(v.slice.upper, env, var)
+        return f"(USlice {clin(one(lo))} {clin(one(hi))})", lo[1] or hi[1]
+    l = lin_of(v.slice, env, var)
+    return f"(UIndex {clin(one(l))})", l[1]
+
+
 def update(tree):
     fn = find_func(tree, "update_processor", CLS)
     params = [a.arg for a in fn.args.args]
@@ -705,8 +756,16 @@ def update(tree):
             env = dict(env0)
             env[a_name] = (0, 1, 0)
             sel = None
+            held = {}
             for s in line:
                 if skip_stmt(s):
+                    continue
+                ap = assign_parts(s)
+                if ap and is_name(ap[0]) and ap[0].id not in env and ap[0].id != target \
+                        and param_selection(ap[1], env, var, one) is not None:
+                    if ap[0].id in held:
+                        fail(s, "a selection of `parameter` is bound twice")
+                    held[ap[0].id] = param_selection(ap[1], env, var, one)
                     continue
                 if isinstance(s, ast.Expr) and isinstance(s.value, ast.Call) and isinstance(s.value.func, ast.Attribute) \
                         and s.value.func.attr == "set":
@@ -714,28 +773,19 @@ def update(tree):
                     if not is_name(c.func.value, target):
                         fail(s, ".set on something that is not the processor to be returned")
                     kws = {k.arg: k.value for k in c.keywords}
-                    if c.args or set(kws) != {"key", "value"} or not is_attr(kws["key"], var, "key"):
+                    for name, a in zip(("key", "value"), c.args):           # Processor.set(key, value)
+                        if name in kws:
+                            fail(s, ".set gets an argument twice")
+                        kws[name] = a
+                    if len(c.args) > 2 or set(kws) != {"key", "value"} or not is_attr(kws["key"], var, "key"):
                         fail(s, ".set must be called as set(key=var.key, value=...)")
                     v = kws["value"]
-                    # a copy of the element / slice carries the same values (C06 repair: parameter[start:stop].copy())
-                    if isinstance(v, ast.Call) and not v.keywords:
-                        if isinstance(v.func, ast.Attribute) and v.func.attr == "copy" and not v.args:
-                            v = v.func.value
-                        elif isinstance(v.func, ast.Attribute) and is_name(v.func.value, "np") \
-                                and v.func.attr in ("copy", "array") and len(v.args) == 1:
-                            v = v.args[0]
-                    if not (isinstance(v, ast.Subscript) and is_name(v.value, "parameter")):
+                    got = held.get(v.id) if is_name(v) else param_selection(v, env, var, one)
+                    if got is None:
                         fail(s, "the value set is not an element / slice of `parameter`")
                     if sel is not None:
                         fail(s, "two .set calls in one iteration")
-                    if isinstance(v.slice, ast.Slice):
-                        if v.slice.step is not None or v.slice.lower is None or v.slice.upper is None:
-                            fail(s, "the slice must be parameter[start:stop]")
-                        sel = f"(USlice {clin(one(lin_of(v.slice.lower, env, var)))} {clin(one(lin_of(v.slice.upper, env, var)))})"
-                        dep = lin_of(v.slice.lower, env, var)[1] or lin_of(v.slice.upper, env, var)[1]
-                    else:
-                        l = lin_of(v.slice, env, var)
-                        sel, dep = f"(UIndex {clin(one(l))})", l[1]
+                    sel, dep = got
                     continue
                 if int_stmt(s, env, var):
                     continue
@@ -823,12 +873,15 @@ def init_and_fitness(tree):
     for c in ast.walk(fit):
         if isinstance(c, ast.Call) and u(c.func) == "self.update_processor":
             n_upd += 1
-            kws = {k.arg: k.value for k in c.keywords}
-            if c.args or set(kws) != {"parameter", "processor"} or not is_name(kws["parameter"]):
-                fail(c, "fitness: update_processor must be called as update_processor(parameter=<name>, processor=...)")
-            if kws["parameter"].id in conv_names:
+            kws = bind_args(c, ("parameter", "processor"))
+            if kws is None:
+                fail(c, "fitness: update_processor must be called with (parameter, processor)")
+            pv = kws["parameter"]
+            if is_name(pv) and pv.id in conv_names or isinstance(pv, ast.Call) \
+                    and u(pv.func) == "self.convert_to_parameters" and len(pv.args) == 1 and not pv.keywords \
+                    and is_name(pv.args[0], x):
                 fit_converts = True
-            elif kws["parameter"].id == x:
+            elif is_name(pv, x):
                 fit_converts = False
             else:
                 fail(c, "fitness: update_processor gets neither the converted nor the raw decision vector")
@@ -957,6 +1010,22 @@ def convert_arg(e):
     return None
 
 
+def bind_args(call, params, others=False):
+    """the arguments of a call by parameter name (positional in the order of `params`, or keywords) -> dict or None;
+    others: further keyword arguments are allowed"""
+    if len(call.args) > len(params) or any(isinstance(a, ast.Starred) for a in call.args):
+        return None
+    out = dict(zip(params, call.args))
+    for k in call.keywords:
+        if k.arg is None or k.arg in out:
+            return None
+        if k.arg in params:
+            out[k.arg] = k.value
+        elif not others:
+            return None
+    return out if set(out) == set(params) else None
+
+
 def single_defs(stmts):
     """names bound exactly once in the statements (nested blocks included), by a plain `n = e` at the top level of
     the list -> {n: e}.  (Data flow through such a name: what is stored under the name is the value of e.)"""
@@ -1068,9 +1137,10 @@ def reporting(ar_tree, fd_tree):
     fn = find_func(ar_tree, "run_evolve", ARCLS)
     calls = [c for c in ast.walk(fn) if isinstance(c, ast.Call)
              and u(c.func) == "self.problem.apply_parameters_to_processors"]
-    if len(calls) != 1 or calls[0].args or [k.arg for k in calls[0].keywords] != ["parameters"]:
+    kws = bind_args(calls[0], ("parameters",)) if len(calls) == 1 else None
+    if kws is None:
         fail(fn, "run_evolve: expected one apply_parameters_to_processors(parameters=...)")
-    a = calls[0].keywords[0].value
+    a = deref(kws["parameters"], single_defs(body_no_doc(fn)))
     if not (isinstance(a, ast.Subscript) and is_name(a.value) and isinstance(a.slice, ast.Constant)
             and a.slice.value in ("champion_parameters", "champion_decision")):
         fail(a, "run_evolve: the parameters applied at the end are not the champions'")
@@ -1093,54 +1163,59 @@ def reporting(ar_tree, fd_tree):
     upd = [c for c in ast.walk(ap_fn) if isinstance(c, ast.Call) and u(c.func) == "self.update_processor"]
     if len(upd) != 1:
         fail(ap_fn, "_apply_parameters: expected one call of update_processor")
-    kws = {k.arg: k.value for k in upd[0].keywords}
-    if upd[0].args or set(kws) != {"parameter", "processor"} or not is_name(kws["parameter"], "parameter") \
-            or not is_name(kws["processor"], "processor"):
+    kws = bind_args(upd[0], ("parameter", "processor"))
+    if kws is None or not is_name(kws["parameter"], "parameter") or not is_name(kws["processor"], "processor"):
         fail(upd[0], "_apply_parameters must call update_processor(parameter=parameter, processor=processor)")
-    newp = [assign_parts(s)[0].id for s in body_no_doc(ap_fn)
-            if assign_parts(s) and is_name(assign_parts(s)[0]) and assign_parts(s)[1] is upd[0]]
+    defs = single_defs(body_no_doc(ap_fn))
     runs = [c for c in ast.walk(ap_fn) if isinstance(c, ast.Call) and u(c.func) == "run_pipeline"]
-    if len(newp) != 1 or len(runs) != 1 or not any(k.arg == "processor" and is_name(k.value, newp[0])
-                                                     for k in runs[0].keywords):
+    if len(runs) != 1:
+        fail(ap_fn, "_apply_parameters: expected one call of run_pipeline")
+    rk = bind_args(runs[0], ("processor",), others=True)
+    if rk is None or deref(rk["processor"], defs) is not upd[0]:
         fail(ap_fn, "_apply_parameters: run_pipeline does not get the processor returned by update_processor")
     ap_all = find_func(fd_tree, "apply_parameters_to_processors", CLS)
     inner = [c for c in ast.walk(ap_all) if isinstance(c, ast.Call) and isinstance(c.func, ast.Call)
              and u(c.func.func) == "delayed" and len(c.func.args) == 1 and u(c.func.args[0]) == "self._apply_parameters"]
     if len(inner) != 1:
         fail(ap_all, "apply_parameters_to_processors: expected one delayed(self._apply_parameters)(...)")
-    kws = {k.arg: k.value for k in inner[0].keywords}
-    if "parameter" not in kws or not is_name(kws["parameter"]):
-        fail(inner[0], "apply_parameters_to_processors: parameter= is not a name")
-    pname, ok_param, grp, keeps_1d = kws["parameter"].id, False, None, False
+    kws = bind_args(inner[0], ("processor", "parameter"))
+    if kws is None:
+        fail(inner[0], "apply_parameters_to_processors: _apply_parameters is not called with (processor, parameter)")
+    ok_param, grp, keeps_1d = False, None, False
     for s in ast.walk(ap_all):
         if isinstance(s, ast.For) and isinstance(s.iter, ast.Call) and isinstance(s.iter.func, ast.Attribute) \
                 and s.iter.func.attr == "groupby" and is_name(s.iter.func.value, "parameters") \
                 and len(s.iter.args) == 1 and isinstance(s.iter.args[0], ast.Constant) and s.iter.args[0].value == "island" \
                 and isinstance(s.target, ast.Tuple) and len(s.target.elts) == 2 and is_name(s.target.elts[1]):
-            grp = s.target.elts[1].id
-    for s in ast.walk(ap_all):
-        ap = assign_parts(s) if isinstance(s, (ast.Assign, ast.AnnAssign)) else None
-        if ap and is_name(ap[0], pname):
-            # the island's row of `parameters` as a numpy array: <group>.squeeze().to_numpy() and variants
-            e = ap[1]
-            names_in = {n.id for n in ast.walk(e) if isinstance(n, ast.Name)}
-            calls = [c for c in ast.walk(e) if isinstance(c, ast.Call) and isinstance(c.func, ast.Attribute)]
-            attrs = {c.func.attr for c in calls}
-            ok_param = grp is not None and names_in <= {grp, "np"} and grp in names_in \
-                and attrs <= {"squeeze", "to_numpy", "asarray", "array", "ravel", "atleast_1d", "isel", "reshape"}
-            # a bare .squeeze() also drops a parameter axis of length one (-> 0-d array); the row stays 1-D when the
-            # squeeze names the island dimension, or the result is made 1-D again
-            bare = any(c.func.attr == "squeeze" and not c.args and not c.keywords for c in calls)
-            for c in calls:
-                if c.func.attr == "squeeze" and (c.args or c.keywords):
-                    dims = [u(a) for a in c.args] + [u(k.value) for k in c.keywords]
-                    if dims != ["'island'"]:
-                        ok_param = False
-                if c.func.attr == "isel" and (c.args or [k.arg for k in c.keywords] != ["island"]):
+            if grp is not None:
+                fail(s, "apply_parameters_to_processors: two loops over the islands")
+            grp, grp_loop = s.target.elts[1].id, s
+    if grp is not None:
+        # the island's row of `parameters` as a numpy array: <group>.squeeze().to_numpy() and variants, possibly through
+        # names bound once in the loop over the islands
+        from .c10_norm import Subst
+        defs = {k: v for k, v in single_defs(grp_loop.body).items() if k not in (grp, "np")}
+        e = kws["parameter"]
+        for _ in range(6):
+            e = Subst(defs).visit(copy.deepcopy(e))
+        names_in = {n.id for n in ast.walk(e) if isinstance(n, ast.Name)}
+        calls = [c for c in ast.walk(e) if isinstance(c, ast.Call) and isinstance(c.func, ast.Attribute)]
+        attrs = {c.func.attr for c in calls}
+        ok_param = names_in <= {grp, "np"} and grp in names_in \
+            and attrs <= {"squeeze", "to_numpy", "asarray", "array", "ravel", "atleast_1d", "isel", "reshape"}
+        # a bare .squeeze() also drops a parameter axis of length one (-> 0-d array); the row stays 1-D when the
+        # squeeze names the island dimension, or the result is made 1-D again
+        bare = any(c.func.attr == "squeeze" and not c.args and not c.keywords for c in calls)
+        for c in calls:
+            if c.func.attr == "squeeze" and (c.args or c.keywords):
+                dims = [u(a) for a in c.args] + [u(k.value) for k in c.keywords]
+                if dims != ["'island'"]:
                     ok_param = False
-                if c.func.attr == "reshape" and [u(a) for a in c.args] != ["-1"]:
-                    ok_param = False
-            keeps_1d = (not bare) or bool(attrs & {"atleast_1d", "ravel", "reshape"})
+            if c.func.attr == "isel" and (c.args or [k.arg for k in c.keywords] != ["island"]):
+                ok_param = False
+            if c.func.attr == "reshape" and [u(a) for a in c.args] != ["-1"]:
+                ok_param = False
+        keeps_1d = (not bare) or bool(attrs & {"atleast_1d", "ravel", "reshape"})
     if not ok_param:
         fail(ap_all, "apply_parameters_to_processors: the island's row of `parameters` is not what is applied")
     return champion, best, final, keeps_1d
@@ -1447,9 +1522,8 @@ def parse_norm(repo: Path, rel: str) -> ast.Module:
     tree = parse(repo, rel)
     try:
         return normalise(tree, repo, ANCHORS)
-    except RecursionError as ex:
-        from harness.core import TranslationError
-        raise TranslationError(f"{rel}: normalisation failed: {ex}") from ex
+    except Exception:  # noqa: BLE001  (the source is then read as it is written; unknown shapes fail closed)
+        return tree
 
 
 def translate(repo: Path) -> str:
